@@ -284,6 +284,12 @@ func c10Case(c *core.Ctx) *core.Result {
 		d.AddParagraph("pictures")
 	}
 	var ledger []*picEntry
+	// sibling renders of one template that stay alive: each has its own ledger and is checked at the end
+	type sibling struct {
+		d      *document.Document
+		ledger []*picEntry
+	}
+	var siblings []*sibling
 	var tables []*document.Table
 	adoptTables := func() {
 		tables = nil
@@ -445,11 +451,9 @@ func c10Case(c *core.Ctx) *core.Result {
 			var d2 *document.Document
 			var err error
 			var added []*picEntry
-			cg := core.Catch(func() {
-				if _, err = eng.LoadTemplateFromDocument("t", d); err != nil {
-					return
-				}
+			mkData := func() (*document.TemplateData, []*picEntry) {
 				data := document.NewTemplateData()
+				var ents []*picEntry
 				for _, nm := range names {
 					im := newImage()
 					w, h, keep := c10Size(r)
@@ -458,8 +462,23 @@ func c10Case(c *core.Ctx) *core.Result {
 						cfg = &document.ImageConfig{Size: &document.ImageSize{Width: w, Height: h, KeepAspectRatio: keep}}
 					}
 					data.SetImageFromData(nm, im.Data, cfg)
-					added = append(added, &picEntry{serial: serial, data: im.Data, pxW: im.W, pxH: im.H, w: w, h: h, keep: keep, where: "template", via: "template-placeholder"})
+					ents = append(ents, &picEntry{serial: serial, data: im.Data, pxW: im.W, pxH: im.H, w: w, h: h, keep: keep, where: "template", via: "template-placeholder"})
 				}
+				return data, ents
+			}
+			cg := core.Catch(func() {
+				if _, err = eng.LoadTemplateFromDocument("t", d); err != nil {
+					return
+				}
+				if len(siblings) < 3 && r.Bool() {
+					// an earlier render of the same template stays alive and is saved only at the end
+					data0, ents0 := mkData()
+					if d0, e0 := eng.RenderTemplateToDocument("t", data0); e0 == nil && d0 != nil && d0.Body != nil {
+						siblings = append(siblings, &sibling{d: d0, ledger: append(append([]*picEntry{}, ledger...), ents0...)})
+					}
+				}
+				var data *document.TemplateData
+				data, added = mkData()
 				d2, err = eng.RenderTemplateToDocument("t", data)
 			})
 			log = append(log, fmt.Sprintf("render-with-%d-image-placeholders", len(names)))
@@ -482,6 +501,12 @@ func c10Case(c *core.Ctx) *core.Result {
 		if b, err := d.ToBytes(); err == nil {
 			c10Check(res, b, ledger, foreignMedia, foreignBlips, "saved", note())
 		}
+		for _, sb := range siblings {
+			if b, err := sb.d.ToBytes(); err == nil {
+				c10Check(res, b, sb.ledger, foreignMedia, foreignBlips, "saved-sibling-render", note())
+				res.Count("sibling_renders_checked", 1)
+			}
+		}
 	}
 	res.Count("images_added", int64(len(ledger)))
 	res.Count("cycles", int64(cycles))
@@ -497,7 +522,7 @@ func init() {
 		ID:    "C10",
 		Level: "exploration",
 		Rule: "histories of body (AddImageFromData/AddImageFromFile), cell (AddCellImage data/file, AddCellImageFromData) and template-placeholder image additions; every image is a unique generated PNG/JPEG/GIF; original names equal/non-ASCII/extension-less/misleading; size configurations none | W×H | W+keep | H+keep | one dimension without keep | 0.5 mm | 5000 mm; inline and floating; interleaved with header/footer/list/footnote calls, " +
-			"save+open cycles and (one case in five) an opened foreign package that already carries media. At every save the independent reader resolves each a:blip through the main part's relationships to the media bytes and maps it back to the ledger by content: every added image is shown by exactly one picture, in the place it was added to, stored unmodified; wp:extent and a:ext follow the sizing rule within 2 EMU; media of the opened package keep their bytes. " +
+			"save+open cycles, sibling renders of one template that are saved only after later renders and additions, and (one case in five) an opened foreign package that already carries media. At every save the independent reader resolves each a:blip through the main part's relationships to the media bytes and maps it back to the ledger by content: every added image is shown by exactly one picture, in the place it was added to, stored unmodified; wp:extent and a:ext follow the sizing rule within 2 EMU; media of the opened package keep their bytes. " +
 			"Non-trivial: >=2 images added and >=1 picture resolved; distinct = call sequence.",
 		Cases:         func(t string) int { return tierN(t, 3000, 100000) },
 		Run:           c10Case,
